@@ -1366,3 +1366,8 @@ package ice
 //@   at call:(*PostingsList).OrInto#0 lemma[C18] bset(rv) == setunion(dmtU(contents(terms), off(terms), s, rangeindex + 1), tdocs(s, term))
 //@   ensures[C18] @union_of_all_terms result1 == nil && old(len(s.fieldsMap)) > 0 ==> bset(result0) == dmtU(contents(terms), off(terms), s, len(terms))
 //@   ensures[C18] @no_fields_no_documents result1 == nil && old(len(s.fieldsMap)) == 0 ==> bset(result0) == emptyset()
+//@
+//@ // ---- C01: each location keeps its own field: the field id of a location with a non-empty
+//@ // field name is looked up for that location's name (composite fields mix source fields) ----
+//@ func (*interim).processDocument
+//@   at call:(*interim).getOrDefineField#0 lemma[C01] loc != nil && loc.FieldVal != ""
